@@ -266,6 +266,27 @@ def run(line):
                 a = [padd(x, y) for x, y in zip(l.act(i), l.act(j))]
                 b = [padd(x, y) for x, y in zip(r.act(i), r.act(j))]
             d.set_act(I(st[3]), cnv(d.size, I(st[1]), a, b))
+        elif op == "cnv_by_const":
+            d, a, cs = env[st[2]], env[st[4]].act(I(st[5])), [int(v) for v in st[6].split(",")]
+            be = [t for t in head if t.startswith("be=")][0][3:]
+            bits = 128 if be.startswith("ntt120") else 64
+            def wrap(v):
+                v &= (1 << bits) - 1
+                return v - (1 << bits) if v >> (bits - 1) else v
+            bound = len(a) + len(cs) - 1
+            ms = min(d.size, bound)
+            off = min(I(st[1]), bound)
+            res = []
+            for k in range(d.size):
+                acc = Z()
+                if k < ms:
+                    kk = k + off
+                    for j in range(len(cs)):
+                        i = kk - j
+                        if 0 <= i < len(a):
+                            acc = [x + cs[j] * y for x, y in zip(acc, a[i])]
+                res.append([wrap(v) for v in acc])
+            d.set_act(I(st[3]), res)
         elif op == "dump":
             b = env[st[1]]
             vals = []
